@@ -21,7 +21,8 @@ fn gen_dominant(rng: &mut Rng, n: usize, symmetric: bool, margin: f64, integer: 
         let v = if integer { rng.nzint(4) as f64 } else { rng.sym() };
         d[i][j] = v; if symmetric { d[j][i] = v; }
     } } }
-    let scale = if integer { 1.0 } else { *rng.pick(&[1.0, 1e3, 1e-3]) };
+    // the units of the matrix must not matter: global scales over 60 decades (exact powers of two for the extremes)
+    let scale = if integer { 1.0 } else { *rng.pick(&[1.0, 1e3, 1e-3, 1.0, 2f64.powi(-70), 2f64.powi(70), 2f64.powi(-100), 2f64.powi(100)]) };
     for i in 0..n {
         let s: f64 = d[i].iter().map(|v| v.abs()).sum();
         let mut dii = if integer { (s * (1.0 + margin)).floor() + 1.0 } else { s * (1.0 + margin) + margin * 0.25 + 1e-3 };
@@ -149,7 +150,7 @@ pub fn run(ctx: &Ctx) -> Report {
     let units = ctx.vol(30_000, 1_200_000);
     let stats = par_run(ctx, TAG, units, |_u, rng, st| { for _ in 0..3 { convergence_case(st, rng); } degenerate_case(st, rng); degenerate_case(st, rng); });
     let mut rep = Report::new(stats,
-        "certified well-posed systems of order 1..60: symmetric strictly diagonally dominant with positive diagonal (SPD; all five variants) and strictly row-dominant nonsymmetric with mixed-sign diagonal (BiCG both error measures, BiCGSTAB, QMR), dominance margins {0.02,0.1,0.5,2}, global scales 1e+-3, rhs from a planted solution of scale 1, 1e3, 1e+-8, 1e-18, 1e+-30, 1e+-60, x0 zero/random/scaled, tol log-uniform 1e-12..1e-3 (QMR demanded for tol>=1e-8 only), budget 10n+100, shuffled triplets. Judged: Ok within the budget, finite x, agreement with Matrix::solve_basic within kappa_F*(tol+drift). Degenerate starts on integer data: exact initial guess (b=A*x0 exactly) and zero rhs with zero guess must be accepted (Ok), x finite and still a solution. Non-trivial: n>=2 and a judged Ok/degenerate outcome; distinct = distinct (solver,entries,tol) hashes");
+        "certified well-posed systems of order 1..60: symmetric strictly diagonally dominant with positive diagonal (SPD; all five variants) and strictly row-dominant nonsymmetric with mixed-sign diagonal (BiCG both error measures, BiCGSTAB, QMR), dominance margins {0.02,0.1,0.5,2}, global matrix scales 1e+-3, 2^+-70, 2^+-100, rhs from a planted solution of scale 1, 1e3, 1e+-8, 1e-18, 1e+-30, 1e+-60, x0 zero/random/scaled, tol log-uniform 1e-12..1e-3 (QMR demanded for tol>=1e-8 only), budget 10n+100, shuffled triplets. Judged: Ok within the budget, finite x, agreement with Matrix::solve_basic within kappa_F*(tol+drift). Degenerate starts on integer data: exact initial guess (b=A*x0 exactly) and zero rhs with zero guess must be accepted (Ok), x finite and still a solution. Non-trivial: n>=2 and a judged Ok/degenerate outcome; distinct = distinct (solver,entries,tol) hashes");
     rep.assumptions = vec![
         "iteration cap 10n+100 (measured worst 3.4*(n+10) over 1.5 M solves)".into(),
         "a convergence failure is reported only if at least 2 of 3 fresh right-hand sides on the same matrix fail too (isolated Lanczos breakdowns are logged, not flagged)".into(),
